@@ -187,10 +187,42 @@ SubSeqs(u) == {SelectSeq(u, LAMBDA r : r \in s) : s \in SUBSET SeqToSet(u)}
 \* prediction, the emission) is done by the workers, not by Init
 BaseConfigs ==
   {[kind |-> "c16", abi |-> abi, clob |-> c, flags |-> f, align |-> al, pcs |-> p,
-    scratch |-> 0, reads |-> <<>>, leaf |-> TRUE] :
+    scratch |-> 0, reads |-> <<>>, leaf |-> TRUE,
+    spell |-> "lower", clobsp |-> c, readsp |-> <<>>] :
      abi \in GenAbis, c \in UNION {SubSeqs(ClobUniverse(x)) : x \in GenAbis},
      f \in BOOLEAN, al \in BOOLEAN, p \in BOOLEAN}
 Leafs(abi) == IF abi = "x64elf" \/ (Wide /\ abi = "x64pe") THEN BOOLEAN ELSE {TRUE}
+
+(***************************************************************************)
+(* Spelling of register names in clobbers_registers / reads_registers.     *)
+(* clob / reads name the registers by identity (canonical name); clobsp /  *)
+(* readsp are what the patch author wrote: ABI.get_register is case        *)
+(* insensitive and accepts sub-register names (the library's own tables    *)
+(* say "RCX", "EAX", ...).  Allocation is by identity, whatever the         *)
+(* spelling.  <<upper, sub-register, mixed case>> per register:            *)
+(***************************************************************************)
+SpellTab ==
+  [rax |-> <<"RAX", "eax", "Rax">>, rbx |-> <<"RBX", "bx", "rBx">>, rcx |-> <<"RCX", "cl", "Ecx">>,
+   rdx |-> <<"RDX", "dh", "eDX">>, rsi |-> <<"RSI", "sil", "Esi">>, rdi |-> <<"RDI", "di", "rDi">>,
+   r8 |-> <<"R8", "r8d", "R8b">>, r11 |-> <<"R11", "r11b", "R11D">>, r15 |-> <<"R15", "r15w", "r15D">>,
+   eax |-> <<"EAX", "al", "Eax">>, ebx |-> <<"EBX", "bh", "eBx">>, ecx |-> <<"ECX", "cx", "eCX">>,
+   edx |-> <<"EDX", "dl", "Dx">>, esi |-> <<"ESI", "si", "Esi">>, edi |-> <<"EDI", "dil", "eDi">>,
+   x0 |-> <<"X0", "w0", "W0">>, x1 |-> <<"X1", "w1", "W1">>, x2 |-> <<"X2", "w2", "W2">>,
+   x3 |-> <<"X3", "w3", "W3">>, x4 |-> <<"X4", "w4", "W4">>, x9 |-> <<"X9", "w9", "W9">>,
+   x16 |-> <<"X16", "w16", "W16">>, x19 |-> <<"X19", "w19", "W19">>,
+   x29 |-> <<"X29", "fp", "Fp">>, x30 |-> <<"X30", "lr", "LR">>,
+   t0 |-> <<"T0", "t0", "T0">>, t1 |-> <<"T1", "t1", "T1">>, t2 |-> <<"T2", "t2", "T2">>,
+   t3 |-> <<"T3", "t3", "T3">>, t4 |-> <<"T4", "t4", "T4">>, a0 |-> <<"A0", "a0", "A0">>,
+   a1 |-> <<"A1", "a1", "A1">>, s0 |-> <<"S0", "s0", "S0">>, v0 |-> <<"V0", "v0", "V0">>,
+   ra |-> <<"RA", "ra", "Ra">>]
+Spellings == {"lower", "upper", "sub", "mixed"}
+Spell(r, mode) ==
+  IF mode = "lower" \/ r \notin DOMAIN SpellTab THEN r
+  ELSE SpellTab[r][CASE mode = "upper" -> 1 [] mode = "sub" -> 2 [] OTHER -> 3]
+SpellSeq(rs, mode) == [i \in DOMAIN rs |-> Spell(rs[i], mode)]
+\* the spelled variants ask for so many scratch registers that every register
+\* of the read / clobber choices would be handed out if it were not excluded
+SpellScratch == 4
 
 (***************************************************************************)
 (* Composition: choose a configuration and a start alignment, execute the  *)
@@ -217,11 +249,22 @@ Init ==
   /\ MInit(ParamsC16(cfg, 0, <<>>, TRUE, 0))
 
 \* stage 2: complete the configuration, predict, start the machine
+\* the spelling dimension is crossed with the allocation-relevant part of the
+\* space only (it cannot influence anything else)
+SpellOK(c, n, rd, md) ==
+  \/ md = "lower" /\ n \in ScratchVals
+  \/ /\ n = SpellScratch /\ n \notin ScratchVals /\ ~c.flags /\ ~c.align /\ ~c.pcs
+     /\ (Len(c.clob) > 0 \/ Len(rd) > 0)
+LoadChoices(c0) ==
+  {[c0 EXCEPT !.scratch = n, !.reads = rd, !.leaf = lf, !.spell = md,
+              !.clobsp = SpellSeq(c0.clob, md), !.readsp = SpellSeq(rd, md)] :
+     n \in {m \in ScratchVals \cup {SpellScratch} : TRUE}, rd \in ReadChoices(c0.abi),
+     lf \in Leafs(c0.abi), md \in Spellings}
+
 Load ==
   /\ pc = 0
-  /\ \E n \in ScratchVals, rd \in ReadChoices(cfg.abi), lf \in Leafs(cfg.abi),
+  /\ \E c \in {x \in LoadChoices(cfg) : SpellOK(x, x.scratch, x.reads, x.spell)},
         a \in RelevantAligns(cfg.abi, cfg.align) :
-        \E c \in {[cfg EXCEPT !.scratch = n, !.reads = rd, !.leaf = lf]} :
         \E p \in {Predict(c)} :
             /\ cfg' = c
             /\ pred' = Meta(p)
@@ -260,7 +303,7 @@ Inv_SpRestored == SpRestored(par, St)
 Inv_ReportedAdjustment == ReportedAdjustment(par, St)
 Inv_AlignedIfAlignStack == AlignedIfAlignStack(par, St)
 Inv_BodyStackNeutral == BodyStackNeutral(par, St)
-Inv_ScratchOK == (pc > 0 /\ pred.exc = "") => ScratchOK(cfg.abi, pred.scratch, cfg.scratch, SeqToSet(cfg.reads))
+Inv_ScratchOK == (pc > 0 /\ pred.exc = "") => ScratchOK(cfg.abi, pred.scratch, cfg.scratch, SeqToSet(cfg.reads) \cup SeqToSet(cfg.clob))
 \* every run that is not refused reaches the end
 Inv_Progress == (pc > Len(prog) /\ pc > 0 /\ pred.exc = "") => phase = "done"
 =============================================================================
